@@ -63,11 +63,24 @@ def dispatch_rules(fb, ctx, only=None):
         ctx.check(ok, "DISPATCH", f"{short}: version -> payload generator", f"DISPATCH|{short}", f"expected arms {want} and `_ => Err`, found {arms} (default returns Err: {default_ok})", f"{b['file']}:{m['ln']}")
         # arguments handed to the generators
         L = sigs.Layout(fb, b)
-        for c in fb.calls(b):
+        # (a generator may be called from a closure created here - `versioned(version, || generate_v0(..), || generate_v1(..))`:
+        #  its arguments are then captured variables, rendered as the operands the closure was built from)
+        sites = [(b, c, None) for c in fb.calls(b)]
+        for blk_ in b["blocks"]:
+            for st_ in blk_["s"]:
+                if st_["r"].get("k") == "agg" and st_["r"].get("ak") == "closure" and st_["r"].get("closure") in fb.bodies:
+                    sites += [(fb.bodies[st_["r"]["closure"]], c, st_["r"].get("ops") or []) for c in fb.calls(fb.bodies[st_["r"]["closure"]])]
+        for owner, c, caps in sites:
             if c.indirect or "generate_" not in (c.rpath or ""):
                 continue
             g = c.rpath.split("::")[-1]
-            got = [L.operand(a) for a in c.args]
+            if caps is None:
+                got = [L.operand(a) for a in c.args]
+            else:
+                Lc, got = sigs.Layout(fb, owner), []
+                for a in c.args:
+                    txt = Lc.operand(a)
+                    got.append(re.sub(r"\barg1\.(\d+)", lambda m_: L.operand(caps[int(m_.group(1))]) if int(m_.group(1)) < len(caps) else m_.group(0), txt))
             wanta = spec["args"].get(g)
             ctx.check(got == wanta, "ARGS", f"{short} -> {g}", f"ARGS|{short}|{g}", f"generator called with {got}, expected {wanta}", f"{b['file']}:{c.ln}")
         # the signature that is checked / produced is over that payload
@@ -272,6 +285,9 @@ def proof_rules(fb, ctx, b, rets):
         e = mirq.success_edge(fb, b, v)
         if e:
             good_edges.add((e[0], e[1]))
+        elif mirq.returned_directly(b, v):
+            # `last_key.verify_signature(..)` is the function's own result: Ok is returned only when the seal verified
+            rets = [x for x in rets if x not in mirq.returned_directly(b, v)]
         else:
             ctx.fail("PROOF", "seal proof result is checked", "PROOF|seal-used", "result of verify_signature on the seal is ignored", f"{b['file']}:{v.ln}")
         # last block selection: blocks[len-1] or authority when empty
